@@ -1304,14 +1304,14 @@ func (self *_Assembler) _asm_OP_str(_ *_Instr) {
 }
 
 func (self *_Assembler) _asm_OP_bin(_ *_Instr) {
-	self.parse_string()                             // PARSE  STRING
-	self.slice_from(_VAR_st_Iv, -1)                 // SLICE  st.Iv, $-1
-	self.Emit("MOVQ", _DI, jit.Ptr(_VP, 0))         // MOVQ   DI, (VP)
-	self.Emit("MOVQ", _SI, jit.Ptr(_VP, 8))         // MOVQ   SI, 8(VP)
-	self.Emit("SHRQ", jit.Imm(2), _SI)              // SHRQ   $2, SI
-	self.Emit("LEAQ", jit.Sib(_SI, _SI, 2, 0), _SI) // LEAQ   (SI)(SI*2), SI
-	self.Emit("MOVQ", _SI, jit.Ptr(_VP, 16))        // MOVQ   SI, 16(VP)
-	self.malloc_AX(_SI, _SI)                        // MALLOC SI, SI
+	self.parse_string()                                        // PARSE  STRING
+	self.slice_from(_VAR_st_Iv, -1)                            // SLICE  st.Iv, $-1
+	self.WriteRecNotAX(20, _DI, jit.Ptr(_VP, 0), false, false) // MOVQ   DI, (VP)
+	self.Emit("MOVQ", _SI, jit.Ptr(_VP, 8))                    // MOVQ   SI, 8(VP)
+	self.Emit("SHRQ", jit.Imm(2), _SI)                         // SHRQ   $2, SI
+	self.Emit("LEAQ", jit.Sib(_SI, _SI, 2, 0), _SI)            // LEAQ   (SI)(SI*2), SI
+	self.Emit("MOVQ", _SI, jit.Ptr(_VP, 16))                   // MOVQ   SI, 16(VP)
+	self.malloc_AX(_SI, _SI)                                   // MALLOC SI, SI
 
 	// TODO: due to base64x's bug, only use AVX mode now
 	self.Emit("MOVL", jit.Imm(_MODE_JSON), _CX) //  MOVL $_MODE_JSON, CX
@@ -1506,21 +1506,25 @@ func (self *_Assembler) _asm_OP_unquote(_ *_Instr) {
 	self.unquote_twice(jit.Ptr(_VP, 0), jit.Ptr(_VP, 8), false) // UNQUOTE twice, (VP), 8(VP)
 }
 
+// NOTICE: overwriting a pointer with nil needs the write barrier as well: the collector
+// must be told about the pointer that is being erased (it may be referenced only from
+// a stack that has been scanned already).
 func (self *_Assembler) _asm_OP_nil_1(_ *_Instr) {
-	self.Emit("XORL", _AX, _AX)             // XORL AX, AX
-	self.Emit("MOVQ", _AX, jit.Ptr(_VP, 0)) // MOVQ AX, (VP)
+	self.Emit("XORL", _CX, _CX)                                // XORL CX, CX
+	self.WriteRecNotAX(17, _CX, jit.Ptr(_VP, 0), false, false) // MOVQ CX, (VP)
 }
 
 func (self *_Assembler) _asm_OP_nil_2(_ *_Instr) {
-	self.Emit("PXOR", _X0, _X0)              // PXOR  X0, X0
-	self.Emit("MOVOU", _X0, jit.Ptr(_VP, 0)) // MOVOU X0, (VP)
+	self.Emit("XORL", _CX, _CX)                                // XORL CX, CX
+	self.Emit("MOVQ", _CX, jit.Ptr(_VP, 0))                    // MOVQ CX, (VP)
+	self.WriteRecNotAX(18, _CX, jit.Ptr(_VP, 8), false, false) // MOVQ CX, 8(VP)
 }
 
 func (self *_Assembler) _asm_OP_nil_3(_ *_Instr) {
-	self.Emit("XORL", _AX, _AX)              // XORL  AX, AX
-	self.Emit("PXOR", _X0, _X0)              // PXOR  X0, X0
-	self.Emit("MOVOU", _X0, jit.Ptr(_VP, 0)) // MOVOU X0, (VP)
-	self.Emit("MOVQ", _AX, jit.Ptr(_VP, 16)) // MOVOU AX, 16(VP)
+	self.Emit("XORL", _CX, _CX)                                // XORL CX, CX
+	self.WriteRecNotAX(19, _CX, jit.Ptr(_VP, 0), false, false) // MOVQ CX, (VP)
+	self.Emit("MOVQ", _CX, jit.Ptr(_VP, 8))                    // MOVQ CX, 8(VP)
+	self.Emit("MOVQ", _CX, jit.Ptr(_VP, 16))                   // MOVQ CX, 16(VP)
 }
 
 var (
@@ -1530,9 +1534,9 @@ var (
 )
 
 func (self *_Assembler) _asm_OP_empty_bytes(_ *_Instr) {
-	self.Emit("MOVQ", _ZERO_PTR, _AX)
+	self.Emit("MOVQ", _ZERO_PTR, _CX)
 	self.Emit("PXOR", _X0, _X0)
-	self.Emit("MOVQ", _AX, jit.Ptr(_VP, 0))
+	self.WriteRecNotAX(21, _CX, jit.Ptr(_VP, 0), false, false)
 	self.Emit("MOVOU", _X0, jit.Ptr(_VP, 8))
 }
 
